@@ -1,0 +1,81 @@
+//go:build verif
+
+package store
+
+import (
+	"context"
+	"fmt"
+	"os"
+	"path/filepath"
+	"time"
+
+	"github.com/opencontainers/go-digest"
+)
+
+// This file is only compiled with the "verif" build tag.
+// It exposes observation and control points for the runtime verification harness:
+// a synchronous collection of one repository or of the whole store, the age of a blob,
+// and the list of open upload sessions. Nothing here is reachable from a normal build.
+
+// VerifGC runs one synchronous garbage collection of a single repository,
+// using the same code path as the ticker and the repository cache.
+func VerifGC(ctx context.Context, s Store, repoStr string) error {
+	repo, err := s.RepoGet(ctx, repoStr)
+	if err != nil {
+		return err
+	}
+	repo.Done()
+	return repo.gc()
+}
+
+// VerifGCPass runs one store wide garbage collection pass as the ticker does.
+func VerifGCPass(s Store, cur, prev time.Time) error {
+	switch st := s.(type) {
+	case *dir:
+		return st.gc(cur, prev)
+	case *mem:
+		return st.gc(cur, prev)
+	}
+	return fmt.Errorf("unknown store type %T", s)
+}
+
+// VerifSetBlobTime changes the modification time used to age a blob.
+func VerifSetBlobTime(ctx context.Context, s Store, repoStr string, d digest.Digest, t time.Time) error {
+	repo, err := s.RepoGet(ctx, repoStr)
+	if err != nil {
+		return err
+	}
+	defer repo.Done()
+	switch r := repo.(type) {
+	case *dirRepo:
+		return os.Chtimes(filepath.Join(r.path, blobsDir, d.Algorithm().String(), d.Encoded()), t, t)
+	case *memRepo:
+		r.mu.Lock()
+		defer r.mu.Unlock()
+		if b, ok := r.blobs[d]; ok && b != nil {
+			b.m.mod = t
+			return nil
+		}
+		if r.path != "" {
+			return os.Chtimes(filepath.Join(r.path, blobsDir, d.Algorithm().String(), d.Encoded()), t, t)
+		}
+		return fmt.Errorf("blob not found: %s", d.String())
+	}
+	return fmt.Errorf("unknown repo type %T", repo)
+}
+
+// VerifUploads lists the open upload sessions of a repository without refreshing their last use.
+func VerifUploads(ctx context.Context, s Store, repoStr string) ([]string, error) {
+	repo, err := s.RepoGet(ctx, repoStr)
+	if err != nil {
+		return nil, err
+	}
+	defer repo.Done()
+	switch r := repo.(type) {
+	case *dirRepo:
+		return r.uploads.List()
+	case *memRepo:
+		return r.uploads.List()
+	}
+	return nil, fmt.Errorf("unknown repo type %T", repo)
+}
